@@ -157,6 +157,8 @@ class SimTransport(Transport):
         if peer is not None and isinstance(message, dict) and message.get('type') == 'append_entries' \
                 and peer not in self.ae_order:
             self.ae_order.append(peer)      # iteration order of the leader's send loop over its set of peers
+        if isinstance(message, dict) and message.get('type') == 'append_entries' and message.get('transmission') is not None:
+            self._watch_pieces(node, message)
         if peer is None or (self.me, peer) not in self.net.up:
             return False
         if self.cluster.nodes[self.me].dead:
@@ -169,6 +171,32 @@ class SimTransport(Transport):
             self.net.chan[(self.me, peer)].append(Msg(data, meta))
         # else: written into a dead connection that this side has not noticed yet
         return True
+
+    def _watch_pieces(self, node, message):
+        """a log entry too large for one message goes out in pieces: from 'start' to 'finish' they must be the pickled
+        entry the sender's log holds at that position at this moment - every byte once, in order (observed at the wire)"""
+        st = self.__dict__.setdefault('_pieces', {})
+        key = node.id
+        kind = message['transmission']
+        if kind == 'start':
+            st[key] = [message['prevLogIdx'], [message['data']]]
+            return
+        cur = st.get(key)
+        if cur is None or cur[0] != message['prevLogIdx']:
+            st.pop(key, None)
+            return
+        cur[1].append(message['data'])
+        if kind == 'finish':
+            st.pop(key, None)
+            try:
+                o = self.cluster.nodes[self.me].obj
+                log = getattr(o, '_SyncObj__raftLog')
+                first = log[0][1]
+                ent = log[cur[0] + 1 - first]
+                ok = (b''.join(bytes(x) for x in cur[1]) == bytes(sopickle.dumps(ent)))
+            except Exception:
+                ok = False
+            self.cluster.rec.step_obs.append({'k': 'pieces', 'n': self.me, 'to': key, 'idx': int(cur[0]) + 1, 'ok': bool(ok)})
 
     def destroy(self):
         pass
